@@ -8,6 +8,24 @@
    fixed number of passes over the concrete window objects (heights, key ranges, sizes recomputed through the
    ACTUAL links) - never by a recursive walk. */
 #include "contracts/verif.h"
+#include "a/avl.h"
+/* stand-ins for the retrace steps inside the glue lemmas (h_insert_first / h_unlink_simple): the call is recorded and the
+   retrace "finishes" at once without touching anything, so that the state the caller handed over can be inspected after
+   the caller returns.  What the real steps do from that state is the subject of h_growth / h_shrink. */
+unsigned verif_step_calls;
+a_avl *verif_step_root;
+a_avl_node *verif_step_parent, *verif_step_node;
+int verif_step_sign;
+#ifndef VERIF_NATIVE
+int contract_a_avl_handle_growth(a_avl *root, a_avl_node *parent, a_avl_node *node, int sign)
+    __CPROVER_assigns(verif_step_calls, verif_step_root, verif_step_parent, verif_step_node, verif_step_sign)
+    __CPROVER_ensures(verif_step_calls == __CPROVER_old(verif_step_calls) + 1 && verif_step_root == root && verif_step_parent == parent && verif_step_node == node && verif_step_sign == sign)
+    __CPROVER_ensures(__CPROVER_return_value == 1);
+a_avl_node *contract_a_avl_handle_shrink(a_avl *root, a_avl_node *parent, int sign, int *left)
+    __CPROVER_assigns(verif_step_calls, verif_step_root, verif_step_parent, verif_step_sign)
+    __CPROVER_ensures(verif_step_calls == __CPROVER_old(verif_step_calls) + 1 && verif_step_root == root && verif_step_parent == parent && verif_step_sign == sign)
+    __CPROVER_ensures(__CPROVER_return_value == (a_avl_node *)0);
+#endif
 #include "src/avl.c"
 
 typedef struct { a_avl_node n; int key; } wn;
@@ -199,6 +217,112 @@ void h_shrink(void)
     VERIF_CANARY();
 }
 
+/* ---- glue lemma: a_avl_insert_adjust up to its first retrace step (a_avl_handle_growth replaced by the recording stand-in) ----
+   The new leaf N has just been linked below B (as a_avl_insert does: N->parent = B, factor 0, no children) into a slot that was
+   empty; B's other child is a boundary subtree of height 0 or 1 (B was valid), A is B's parent, valid before the insertion.
+   post: either no retrace step is started and the window is a valid AVL tree of the old height (B absorbed the leaf), or exactly
+   one step is started, for (A, B, side of B), and the heap at that moment is EXACTLY the pre-state J_grow of h_growth for these
+   heights (every parent word, child link and the root compared with that state). */
+static unsigned long snapw[8]; static a_avl_node *snapl[8], *snapr[8]; static a_avl_node *snaproot;
+static wn *const ALLN[8] = {&nP, &nA, &nB, &nE, &nC, &nD, &nF, &nG};
+static void snapshot(void) { int i; for (i = 0; i < 8; ++i) { snapw[i] = (unsigned long)ALLN[i]->n.parent_; snapl[i] = ALLN[i]->n.left; snapr[i] = ALLN[i]->n.right; } snaproot = root.node; }
+static int same_as_snapshot(void) { int i, ok = 1; for (i = 0; i < 8; ++i) { if (snapw[i] != (unsigned long)ALLN[i]->n.parent_ || snapl[i] != ALLN[i]->n.left || snapr[i] != ALLN[i]->n.right) { ok = 0; } } return ok && snaproot == root.node; }
+void h_insert_first(void)
+{
+    build();
+    ND(_Bool, outer, bool);
+    wn *N = outer ? &nD : &nE;
+    /* the new leaf: D (outer side) or E (inner side); its sibling below B has height <= 1 */
+    if (outer) { ASSUME(hD == 1 && fD == 0 && hE_() <= 1); } else { ASSUME(eE && hF == 0 && hG == 0 && hD <= 1); }
+    int hsib = outer ? hE_() : hD, hb_old = 1 + hsib, hb_new = hB_();
+    ASSUME(hb_old - hC <= 1 && hC - hb_old <= 1);                       /* A was valid before the insertion */
+    a_avl_set_parent_factor(&nA.n, hasP ? &nP.n : (a_avl_node *)A_NULL, fac(hb_old, hC));
+    snapshot();                                                          /* = J_grow(A, B, s) when B grew (B carries the factor of the new heights) */
+    a_avl_set_parent_factor(&nB.n, &nA.n, outer ? fac(0, hsib) : fac(hsib, 0)); /* state on entry: B's factor is still the one without the leaf */
+    a_avl_set_parent_factor(&N->n, &nB.n, 0);
+    verif_step_calls = 0;
+    a_avl_insert_adjust(&root, &N->n);
+    if (hb_new == hb_old)
+    {
+        ASSERT(verif_step_calls == 0, "insert_adjust: a leaf that fills the shorter side of its parent starts no retrace");
+        ASSERT(window_valid(1 + maxi(hb_old, hC)), "insert_adjust (absorbed): valid AVL window of the old height, parent links and frame intact");
+    }
+    else
+    {
+        ASSERT(verif_step_calls == 1 && verif_step_root == &root && verif_step_parent == &nA.n && verif_step_node == &nB.n && verif_step_sign == s,
+               "insert_adjust: exactly one retrace step is started, at the grandparent, for the parent's side");
+        ASSERT(same_as_snapshot(), "insert_adjust: the state handed to the first retrace step is the step invariant J_grow (parent valid with the new heights and unbalanced by one, grandparent with the factor of the old heights, no other word touched)");
+    }
+    VERIF_CANARY();
+}
+/* the parent of the new leaf is the root: nothing above it to retrace */
+void h_insert_first_root(void)
+{
+    static wn r, n, sib; static a_avl t;
+    ND(int, side, int); ND(_Bool, has_sib, bool); ND(int, fs, int);
+    ASSUME((side == -1 || side == 1) && -1 <= fs && fs <= 1);
+    r.n.left = r.n.right = n.n.left = n.n.right = sib.n.left = sib.n.right = A_NULL;
+    a_avl_set_child(&r.n, &n.n, side);
+    a_avl_set_child(&r.n, has_sib ? &sib.n : (a_avl_node *)A_NULL, -side);
+    a_avl_set_parent_factor(&r.n, A_NULL, has_sib ? -side : 0);         /* factor without the leaf */
+    a_avl_set_parent_factor(&n.n, &r.n, 0);
+    a_avl_set_parent_factor(&sib.n, &r.n, fs);
+    t.node = &r.n;
+    verif_step_calls = 0;
+    a_avl_insert_adjust(&t, &n.n);
+    ASSERT(verif_step_calls == 0 && t.node == &r.n && a_avl_parent(&r.n) == A_NULL, "insert_adjust (parent is the root): no retrace, root unchanged");
+    ASSERT(a_avl_factor(&r.n) == (has_sib ? 0 : side), "insert_adjust (parent is the root): the root's factor is the height difference with the new leaf");
+    ASSERT(a_avl_child(&r.n, side) == &n.n && a_avl_child(&r.n, -side) == (has_sib ? &sib.n : (a_avl_node *)A_NULL) && a_avl_parent(&n.n) == &r.n && a_avl_factor(&n.n) == 0 && a_avl_factor(&sib.n) == fs, "insert_adjust (parent is the root): links intact");
+    VERIF_CANARY();
+}
+
+/* ---- glue lemma: the simple unlink of a_avl_remove (node with at most one child) up to its first retrace step
+        (a_avl_handle_shrink replaced by the recording stand-in) ----
+   X hangs below A on side -s and has at most one child c (boundary C, height hC <= 1, on either side of X); A's other child is B.
+   post: X is unlinked, c hangs where X hung, exactly one retrace step is started for (A, sign = s: the -s side shrank), and the
+   heap at that moment is EXACTLY the pre-state J_shrink of h_shrink for these heights. */
+void h_unlink_simple(void)
+{
+    static wn nX;
+    build();
+    ND(int, cside, int);
+    ASSUME((cside == -1 || cside == 1) && hC <= 1);
+    int hb = hB_();
+    ASSUME(hb - (hC + 1) <= 1 && (hC + 1) - hb <= 1);                    /* A was valid before the deletion */
+    a_avl_set_parent_factor(&nA.n, hasP ? &nP.n : (a_avl_node *)A_NULL, fac(hb, hC + 1));
+    snapshot();                                                           /* = J_shrink(A, s): side -s (holding c) is one lower than A's factor says */
+    /* state on entry: X sits between A and c */
+    nX.key = nC.key; nX.n.left = nX.n.right = A_NULL;
+    a_avl_set_child(&nA.n, &nX.n, -s);
+    a_avl_set_child(&nX.n, opt(&nC, hC), cside);
+    a_avl_set_parent_factor(&nX.n, &nA.n, hC ? cside : 0);
+    if (hC) { a_avl_set_parent_factor(&nC.n, &nX.n, fC); }
+    verif_step_calls = 0;
+    a_avl_remove(&root, &nX.n);
+    ASSERT(verif_step_calls == 1 && verif_step_root == &root && verif_step_parent == &nA.n && verif_step_sign == s,
+           "remove (simple unlink): exactly one retrace step is started, at the parent, for the side that lost the node");
+    ASSERT(same_as_snapshot(), "remove (simple unlink): the child replaces the node and the state handed to the first retrace step is the step invariant J_shrink (no other word touched)");
+    VERIF_CANARY();
+}
+/* the unlinked node is the root */
+void h_unlink_simple_root(void)
+{
+    static wn x, c; static a_avl t;
+    ND(int, cside, int); ND(_Bool, has_c, bool); ND(int, fc, int);
+    ASSUME((cside == -1 || cside == 1) && -1 <= fc && fc <= 1);
+    x.n.left = x.n.right = c.n.left = c.n.right = A_NULL;
+    a_avl_set_child(&x.n, has_c ? &c.n : (a_avl_node *)A_NULL, cside);
+    a_avl_set_parent_factor(&x.n, A_NULL, has_c ? cside : 0);
+    a_avl_set_parent_factor(&c.n, &x.n, fc);
+    t.node = &x.n;
+    verif_step_calls = 0;
+    a_avl_remove(&t, &x.n);
+    ASSERT(verif_step_calls == 0, "remove (root with at most one child): no retrace");
+    ASSERT(t.node == (has_c ? &c.n : (a_avl_node *)A_NULL), "remove (root with at most one child): the child becomes the root");
+    if (has_c) { ASSERT(a_avl_parent(&c.n) == A_NULL && a_avl_factor(&c.n) == fc && c.n.left == A_NULL && c.n.right == A_NULL, "remove (root with at most one child): the new root has no parent and keeps its factor and children"); }
+    VERIF_CANARY();
+}
+
 /* ---- lemma: a_avl_handle_remove (successor splice of a two-child node) and the simple unlink of a_avl_remove's
         glue are followed by the retrace loop; here: G? - X { L (left subtree, boundary, present), spine s0 = X->right,
         s1 = s0->left, ... down to the successor Y = s_depth (depth 0..MAXDEPTH materialised; Y->left absent,
@@ -308,7 +432,16 @@ void h_splice(void)
     spasses();
     ASSUME(sok_of(&sX.n) && sh_of(&sX.n) == hX);
     int size0 = ssz_of(&sX.n), left = 7;
+#ifdef VIA_REMOVE /* the same lemma through a_avl_remove (two-child path), its retrace loop cut at the first step by the recording stand-in:
+                     the glue must start that step at the node, and for the side, that a_avl_handle_remove reported */
+    verif_step_calls = 0;
+    a_avl_remove(&root, &sX.n);
+    ASSERT(verif_step_calls == 1 && verif_step_root == &root && (verif_step_sign == 1 || verif_step_sign == -1), "remove (two children): exactly one retrace step is started after the splice");
+    a_avl_node *ret = verif_step_parent;
+    left = verif_step_sign > 0; /* library convention: sign +1 = the LEFT subtree shrank */
+#else
     a_avl_node *ret = a_avl_handle_remove(&root, &sX.n, &left);
+#endif
     {
         wn *Y = sp[depth];
         a_avl_node *t = hasG_ ? a_avl_child(&sG.n, sideG_) : root.node;
